@@ -105,5 +105,6 @@ func sortFunc(ctx *flags.Context) error {
 		return ctx.Raise(fmt.Errorf("encountered error in scanner: %v", err))
 	}
 
+	d.Commit()
 	return nil
 }
